@@ -126,3 +126,56 @@ func Harness_C08_maxerror_target() {
 	}
 	vr.Reach("end")
 }
+
+// Extended targets with a finite distance limit: the search disc must account for the
+// target's own extent (cap radius) as well as the limit.
+// a dense cluster of 42 points near (1, 0.36, 0.23): the index covering is a few small cells
+func vrC08Cluster() PointVector {
+	var pv PointVector
+	for i := 0; i < 7; i++ {
+		for j := 0; j < 6; j++ {
+			pv = append(pv, PointFromCoords(1, 0.36+0.002*float64(i)-0.005, 0.23+0.0015*float64(j)-0.004))
+		}
+	}
+	return pv
+}
+
+func Harness_C08_edge_target_with_limit() {
+	vr.Domain("FPX")
+	vr.Unwind(600)
+	var pv PointVector
+	if vr.Bool("clusteredIndex") {
+		pv = vrC08Cluster()
+	} else {
+		pv = vrC08Points()
+	}
+	idx := NewShapeIndex()
+	idx.Add(&pv)
+	mr := vr.Int("maxResults")
+	vr.Assume(vr.And(mr >= 1, mr <= 40))
+	li := vr.Int("limit")
+	vr.Assume(vr.And(li >= 0, li <= 2))
+	limit := s1.ChordAngle(0.00002)
+	if li == 1 {
+		limit = s1.ChordAngle(0.01)
+	} else if li == 2 {
+		limit = s1.ChordAngle(0.6)
+	}
+	// a long edge whose endpoints are near index points on two different faces and whose
+	// midpoint (the cap centre) is far from all of them
+	// (asymmetric on purpose: with exactly equidistant edges and maxResults=1 the optimized and
+	// the exhaustive search may legitimately report different edges of the same distance)
+	edge := Edge{PointFromCoords(1, 0.36, 0.23), PointFromCoords(0.33, 1, 0.19)}
+	closest := vr.Bool("closest")
+	var ra, rb []EdgeQueryResult
+	if closest {
+		ra = vrC08Run(true, NewMinDistanceToEdgeTarget(edge), mr, limit, true, false, idx)
+		rb = vrC08Run(true, NewMinDistanceToEdgeTarget(edge), mr, limit, true, true, idx)
+	} else {
+		flimit := s1.ChordAngle(4 - float64(limit))
+		ra = vrC08Run(false, NewMaxDistanceToEdgeTarget(edge), mr, flimit, true, false, idx)
+		rb = vrC08Run(false, NewMaxDistanceToEdgeTarget(edge), mr, flimit, true, true, idx)
+	}
+	vr.Assert("edge target with a distance limit: optimized results == brute force", vrSameResults(ra, rb))
+	vr.Reach("end")
+}
